@@ -7,7 +7,11 @@ use crate::ops::BookCase;
 use serde::{Deserialize, Serialize};
 use serde_json::json;
 
+pub mod agents;
 pub mod book;
+pub mod c09;
+pub mod c15;
+pub mod c20;
 pub mod envchk;
 pub mod multi;
 
@@ -17,6 +21,11 @@ pub enum Case {
     Market(MarketCase),
     Trunc(multi::TruncCase),
     Env(crate::envcase::EnvCase),
+    Shuffle(c15::ShuffleCase),
+    Agent(agents::AgentCase),
+    Momentum(agents::MomCase),
+    Shape(c20::ShapeCase),
+    Sim(c09::SimCase),
 }
 
 const BOOK_IDS: [&str; 9] = ["C01", "C02", "C03", "C04", "C05", "C06", "C07", "C12", "C13"];
@@ -32,6 +41,11 @@ pub fn outcome(id: &'static str, case: &Case) -> Outcome {
         Case::Market(c) => multi::market_outcome(id, c),
         Case::Trunc(c) => multi::trunc_outcome(id, c),
         Case::Env(c) => envchk::env_outcome(id, c),
+        Case::Shuffle(c) => c15::outcome(id, c),
+        Case::Agent(c) => agents::outcome_c16(c),
+        Case::Momentum(c) => agents::outcome_c17(c),
+        Case::Shape(c) => c20::outcome(c),
+        Case::Sim(c) => c09::outcome(c),
     }
 }
 
@@ -41,6 +55,11 @@ fn simplify(case: &Case) -> Vec<Case> {
         Case::Market(c) => multi::simplify_market(c).into_iter().map(Case::Market).collect(),
         Case::Trunc(_) => vec![],
         Case::Env(c) => envchk::simplify_env(c).into_iter().map(Case::Env).collect(),
+        Case::Shuffle(_) => vec![],
+        Case::Agent(_) => vec![],
+        Case::Momentum(_) => vec![],
+        Case::Shape(_) => vec![],
+        Case::Sim(_) => vec![],
     }
 }
 
@@ -68,6 +87,53 @@ pub fn spec(id: &'static str, tier: Tier) -> Option<CheckSpec<Case>> {
         } else {
             rule = format!("{} || Environment parts: {}", rule, r);
         }
+    }
+    if id == "C15" {
+        let (p, r) = c15::parts(tier);
+        parts.extend(p);
+        rule = r;
+        assumptions = vec![
+            "every instruction of a measured step reveals its position through a timestamp (arrival time of a new non-crossing order, end time of a cancelled / fully filled re-priced order)".to_string(),
+            "the concentration bound assumes the seeded Xoroshiro128** streams behave like independent uniform draws; false-alarm probability below 1e-9 per run under that assumption".to_string(),
+            "biases smaller than the stated deviation t/N are not detectable at this sample size".to_string(),
+        ];
+    }
+    if id == "C16" {
+        let (p, r) = agents::parts_c16(tier);
+        parts.extend(p);
+        rule = r;
+        assumptions = vec![
+            "parameterisations consistent with the environment: agent tick size = environment tick size, non-empty tick / volume ranges, finite distribution parameters".to_string(),
+            "the harness lets exactly one agent object update per step, so every instruction of that step is attributable to it".to_string(),
+            "a scripted RngCore and boundary seeds are legitimate inputs: the agents are generic over RngCore and every clause checked is universal over draws".to_string(),
+        ];
+    }
+    if id == "C17" {
+        let (p, r) = agents::parts_c17(tier);
+        parts.extend(p);
+        rule = r;
+        assumptions = vec![
+            "the harness's recomputation of M uses the documented recurrence on the mid-prices it reads immediately before each update".to_string(),
+            "the deterministic count rule is only asserted with a margin (|p| >= 1 + 1e-9) so that floating-point rounding at the saturation boundary cannot raise an alarm".to_string(),
+        ];
+    }
+    if id == "C20" {
+        let (p, r) = c20::parts(tier);
+        parts.extend(p);
+        rule = r;
+        assumptions = vec![
+            "struct shapes are compile-time objects: they are generated as source by harness/build.rs from a fixed seed (64 fixed + 96 generated shapes per macro) and compiled into the harness".to_string(),
+            "the hand-written reference sequence is generated together with each struct (member calls in declaration order, nested sets expanded recursively)".to_string(),
+        ];
+    }
+    if id == "C09" {
+        let (p, r) = c09::parts(tier);
+        parts.extend(p);
+        rule = r;
+        assumptions = vec![
+            "sources of nondeterminism that can be varied from inside the sandbox: OS process, ASLR, environment block, working directory, per-process / per-instance hash seeds, progress-bar branch".to_string(),
+            "wall-clock dependence would only show if runs straddle the dependency's granularity (child processes start at different times)".to_string(),
+        ];
     }
     if parts.is_empty() {
         return None;
